@@ -459,8 +459,12 @@ class PlayerPlaceholder(BasePlaceholder):
         self._number = number
 
     def subscribe(self):
-        """Subscribe to player changes."""
-        return self._machine.events.wait_for_any_event(["player_turn_ended", "player_turn_started"])
+        """Subscribe to player changes.
+
+        The player also changes when the game mode has stopped (machine.game is None from then on).
+        """
+        return self._machine.events.wait_for_any_event(["player_turn_ended", "player_turn_started",
+                                                        "mode_game_stopped"])
 
     def subscribe_attribute(self, item):
         """Subscribe player variable changes."""
@@ -503,7 +507,7 @@ class PlayersPlaceholder(BasePlaceholder):
 
     def subscribe(self):
         """Subscribe to player list changes."""
-        return self._machine.events.wait_for_any_event(["player_added", "game_ended"])
+        return self._machine.events.wait_for_any_event(["player_added", "game_ended", "mode_game_stopped"])
 
     def subscribe_attribute(self, item):
         """Subscribe player variable changes."""
